@@ -104,7 +104,7 @@ pub fn checks(tier: Tier) -> Vec<Check> {
     vec![Check {
         name: "C08.eddsa-sign-model".into(),
         strategy: strategy(),
-        cases: tier.scale(8_000, 20),
+        cases: tier.scale(24_000, 10),
         exec: Box::new(crate::ops::exec),
         oracle: Box::new(crate::mops::oracle),
         classify: Box::new(classify),
